@@ -13,8 +13,10 @@ def alarms(path):
 print("| change | file / function | what it breaks | own check | other checks that alarm | first failed obligation |")
 print("|--------|-----------------|----------------|-----------|--------------------------|-------------------------|")
 tot = caught = 0
-for d in sorted(glob.glob('seeded/*/*/')):
+for d in sorted(glob.glob('seeded/*/*/')) + sorted(glob.glob('seeded2/*/*/')):
     pid, k = d.split('/')[1], d.split('/')[2]
+    if d.startswith('seeded2'):
+        k = 'r2-' + k
     meta = json.load(open(d + 'meta.json')) if os.path.exists(d + 'meta.json') else {}
     al = alarms(d + 'result.all.txt') or []
     own = [a for a in al if a[0] == pid]
